@@ -75,6 +75,50 @@ def thread_scenario(rng, sid, i, base):
     return s
 
 
+def build_locale():
+    """a tiny locale whose decimal point is ',' (none is installed): -> (LOCPATH, name) or None"""
+    d = os.path.join(build.BUILD, "locale")
+    name = "xx_XX"
+    if os.path.exists(os.path.join(d, name, "LC_NUMERIC")):
+        return d, name
+    os.makedirs(d, exist_ok=True)
+    cm = "<code_set_name> ANSI_X3.4-1968\n<comment_char> %\n<escape_char> /\nCHARMAP\n" + \
+        "".join("<U%04X> /x%02x\n" % (i, i) for i in range(128)) + "END CHARMAP\n"
+    src = ("comment_char %\nescape_char /\nLC_CTYPE\nupper " + ";".join("<U%04X>" % i for i in range(65, 91)) + "\nlower " +
+           ";".join("<U%04X>" % i for i in range(97, 123)) + "\nEND LC_CTYPE\nLC_NUMERIC\ndecimal_point \"<U002C>\"\n"
+           "thousands_sep \"<U002E>\"\ngrouping 3;3\nEND LC_NUMERIC\n")
+    open(os.path.join(d, "ascii.cm"), "w").write(cm)
+    open(os.path.join(d, "xx_XX.src"), "w").write(src)
+    subprocess.run(["localedef", "-c", "-f", os.path.join(d, "ascii.cm"), "-i", os.path.join(d, "xx_XX.src"), os.path.join(d, name)],
+                   stdout=subprocess.DEVNULL, stderr=subprocess.DEVNULL)
+    return (d, name) if os.path.exists(os.path.join(d, name, "LC_NUMERIC")) else None
+
+
+def float_scenario(rng, sid, i, base):
+    """typed floating values on a private object, many times: formatted and parsed with the C library's locale-dependent
+    functions; judged by comparing the thread's output with its own output when it runs alone"""
+    pre = base + b"/t%d" % i
+    s = Scenario(sid, {"thread": i, "floats": True})
+    s.mkdir(pre + b"/out")
+    s.add("NEW", 0, "ini")
+    for r in range(rng.randint(40, 90)):
+        k = h(b"k%d" % (r % 5))
+        if rng.random() < 0.5:
+            s.add("SET", 0, "double", h(b"S"), k, "x%016x" % rng.choice([0x3ff8000000000000, 0x3fd5555555555555, 0x40091eb851eb851f, 0xc059000000000000 + i]))
+            s.add("GET", 0, "str", h(b"S"), k)
+            s.add("GET", 0, "double", h(b"S"), k)
+        else:
+            s.add("SET", 0, "float", h(b"S"), k, "x%08x" % rng.choice([0x3fc00000, 0x3eaaaaab, 0x40490fdb, 0xc2c80000 + i]))
+            s.add("GET", 0, "str", h(b"S"), k)
+            s.add("GET", 0, "float", h(b"S"), k)
+    s.add("W", 0, h(pre + b"/out"), h(b"w.conf"))
+    s.add("RF", 1, h(pre + b"/out/w.conf"), h(b"="), h(b"#"))
+    s.add("GET", 1, "double", h(b"S"), h(b"k0"))
+    s.add("FREE", 1)
+    s.add("FREE", 0)
+    return s
+
+
 def scenarios(tier, rng):
     return []      # everything happens in direct_checks (the thread harness is a different executable)
 
@@ -108,11 +152,26 @@ def direct_checks(res, harness, tier, rng):
                 pro.add(*c)
             grp.insert(0, pro)
         groups.append(grp)
+    # groups that work with floating values under a numeric locale with a decimal comma: compared with the same thread alone
+    loc = build_locale()
+    fgroups = []
+    if loc:
+        for g in range(12 if tier == "quick" else 200):
+            nt = rng.choice([4, 8, 8, 16])
+            grp = [float_scenario(rng, "f%dt%d" % (g, i), i, ("%s/f%d" % (tmp, g)).encode()) for i in range(nt)]
+            pro = Scenario("prologue_f%d" % g, {"prologue": True})
+            pro.add("LOCALE", loc[1])
+            grp.insert(0, pro)
+            fgroups.append(grp)
+    else:
+        res.notes.append("no numeric locale with a decimal comma could be built (localedef): float groups skipped")
     supp = os.path.join(build.BUILD, "tsan.supp")
     with open(supp, "w") as f:
         for a in ALLOWED:
             f.write("race:%s\n" % a)
     env = dict(os.environ, TSAN_OPTIONS="suppressions=%s:halt_on_error=0:report_signal_unsafe=0:exitcode=0" % supp)
+    if loc:
+        env["LOCPATH"] = loc[0]
 
     def run_group(grp):
         text = "".join(s.text() for s in grp)
@@ -159,4 +218,31 @@ def direct_checks(res, harness, tier, rng):
                                             "a thread's results differ from running its calls alone (model): first difference %s; "
                                             "%d threads in the group; exit %d\n%s" % (fd, len(grp), rc, err[-1500:]), il, ml)
                     res.violations.append((p, "thread output differs from its serial run", False))
+    # float groups: every thread's output while the others run = its output when it runs alone (same prologue)
+    def run_alone(grp):
+        outs = {}
+        for sc in grp[1:]:
+            o, _, _ = run_group([grp[0], sc])
+            outs[sc.id] = o.get(sc.id, ([], "MISSING"))
+        return outs
+    with cf.ThreadPoolExecutor(max_workers=8) as ex:
+        conc = list(ex.map(run_group, fgroups))
+        alone = list(ex.map(run_alone, fgroups))
+    for grp, (out, err, rc), solo in zip(fgroups, conc, alone):
+        res.hist["float_threads_%d" % (len(grp) - 1)] = res.hist.get("float_threads_%d" % (len(grp) - 1), 0) + 1
+        if out.get(grp[0].id, ([""], ""))[0][:1] != ["locale set ,"]:
+            res.notes.append("the test locale could not be activated: %r" % (out.get(grp[0].id),))
+            continue
+        for sc in grp[1:]:
+            res.evaluations += 1
+            il, ist = out.get(sc.id, ([], "MISSING"))
+            al, ast = solo[sc.id]
+            if ist == "ok":
+                res.nontrivial.add(tuple(sc.lines))
+            if (il != al or ist != "ok") and len(res.violations) < 3:
+                fd = scn.first_diff(il, al)
+                p = common.write_replay(res, "float%d" % (len(res.violations) + 1), sc,
+                                        "under a numeric locale with a decimal comma a thread's results differ from the results of the same "
+                                        "calls run alone: first difference %s (concurrent, alone); %d threads in the group" % (fd, len(grp) - 1), il, al)
+                res.violations.append((p, "thread output differs from its run alone (floating values, decimal-comma locale)", False))
     res.notes.append("%d thread groups, %d ThreadSanitizer reports (after suppressing the documented error-location record)" % (len(groups), races))
